@@ -32,6 +32,7 @@ type Token struct {
 	W    int
 	Num  bool   // numeric (endianness applies)
 	Val  uint64 // numeric value (bit pattern) when Num
+	Site string // "<pkg.Type>.<Field>": the schema field this token belongs to (reader/writer call site)
 }
 
 type Codec struct {
@@ -249,11 +250,12 @@ type enc struct {
 	out  []byte
 	toks []Token
 	tok  bool
+	site string
 }
 
 func (e *enc) t(path, cat string, off, w int, num bool, val uint64) {
 	if e.tok {
-		e.toks = append(e.toks, Token{path, cat, off, w, num, val})
+		e.toks = append(e.toks, Token{path, cat, off, w, num, val, e.site})
 	}
 }
 
@@ -288,6 +290,7 @@ func (e *enc) typ(t *schema.Type, v reflect.Value, path string) error {
 			return fmt.Errorf("%w: %s has no field %s", ErrBind, t.QName, f.Name)
 		}
 		p := join(path, f.Name)
+		e.site = t.QName + "." + f.Name
 		switch f.Kind {
 		case "bodylen":
 			lenOff, lenW = len(e.out), schema.Width(f.Prefix)
@@ -476,11 +479,12 @@ type dec struct {
 	off  int
 	toks []Token
 	tok  bool
+	site string
 }
 
 func (d *dec) t(path, cat string, off, w int, num bool, val uint64) {
 	if d.tok {
-		d.toks = append(d.toks, Token{path, cat, off, w, num, val})
+		d.toks = append(d.toks, Token{path, cat, off, w, num, val, d.site})
 	}
 }
 
@@ -518,6 +522,7 @@ func (d *dec) typ(t *schema.Type, v reflect.Value, path string) error {
 			return fmt.Errorf("%w: %s has no field %s", ErrBind, t.QName, f.Name)
 		}
 		p := join(path, f.Name)
+		d.site = t.QName + "." + f.Name
 		switch f.Kind {
 		case "bodylen", "checksum":
 			w := schema.Width(f.Prefix)
